@@ -46,7 +46,7 @@ macro_rules! probes_struct {
 probes_struct! {
     scalars: {
         runs, steps, deliveries, polls, resets, advances, forks, snapshots, restores, reset_storm_resets, soak_loops, soak_steps, enc_cc14, enc_pn, bad_argument_ctor,
-        ingest_rejected, ingest_mismatch, factory_rebuild_mismatch, accessor_mismatch, telemetry_mismatch, infinite_jumps, clock_reads,
+        ingest_rejected, ingest_mismatch, factory_rebuild_mismatch, accessor_mismatch, telemetry_mismatch, garbled_parses, infinite_jumps, clock_reads,
         reports_cc14, reports_pn, reports_polling_feed, reports_polling_poll,
         rt_c07_checked, rt_c07_skipped, rt_c10_checked, rt_c10_running_checked, rt_c10_skipped,
         rt_c12_checked, rt_c12_abandoned, rt_c12_unfinished,
